@@ -392,6 +392,7 @@ class KmipEngine(object):
 
                     result_status = enums.ResultStatus.SUCCESS
                 except exceptions.KmipError as e:
+                    self._data_session.rollback()
                     error_occurred = True
                     result_status = e.status
                     result_reason = e.reason
@@ -401,6 +402,7 @@ class KmipEngine(object):
                         "Error occurred while processing operation."
                     )
                     self._logger.exception(e)
+                    self._data_session.rollback()
 
                     error_occurred = True
                     result_status = enums.ResultStatus.OPERATION_FAILED
